@@ -126,3 +126,22 @@ contract(F, "EquivalenceDB.connect_cycles", props=["C06", "C05"], verify=False,
                   "forall(lambda y: implies(" + _WAS_VER.format(y="y") + ", " + _IS_VER.format(y="y") + "))"],
          modifies=_FIND_MODS + ["*self.verified_roots", "self.rep", "*self._one_way_vertices", "self._one_way_vertices",
                                 "all:Set(Int)", "all:DefaultDict(Int, Set(Int))"])
+
+# get_one_way_vertices: the one-way adjacency is rebuilt over REPRESENTATIVES -- every key and every target of the result is
+# the representative of its class, no self loops; the partition and the verified flags are untouched.  (Soundness of the
+# rebuilt table; that no edge between different classes is lost is checked by the bounded SCC oracle.)
+_OWV = ("forall(lambda k, e: implies(k in {r} and e in {r}[k], self.rep[k] == k and self.rep[e] == e and e != k))")
+contract(F, "EquivalenceDB.get_one_way_vertices", props=["C06"],
+         params={"self": E}, returns=DefaultDict(Int, Set(Int)),
+         locals={"res": DefaultDict(Int, Set(Int))},
+         ensures=[_OWV.format(r="result"), "same(result, self._one_way_vertices)", "fresh(result)", _REP_SAME, _VR_SAME],
+         loops={0: dict(invariant=["wf(self)", _OWV.format(r="res"), "fresh(res)", _REP_SAME, _VR_SAME,
+                                   "forall(lambda k: implies(k in res, fresh(res[k])))",
+                                   "forall(lambda k, l: implies(k in res and l in res and k != l, not same(res[k], res[l])))"],
+                        modifies=_FIND_MODS + ["*res", "all:Set(Int)"]),
+                1: dict(invariant=["wf(self)", _OWV.format(r="res"), "fresh(res)", _REP_SAME, _VR_SAME, "self.rep[start] == start",
+                                   "forall(lambda k: implies(k in res, fresh(res[k])))",
+                                   "forall(lambda k, l: implies(k in res and l in res and k != l, not same(res[k], res[l])))"],
+                        modifies=_FIND_MODS + ["*res", "all:Set(Int)"])},
+         modifies=_FIND_MODS + ["self._one_way_vertices", "all:Set(Int)", "all:DefaultDict(Int, Set(Int))"],
+         notes="keys and targets of the rebuilt table are representatives; self loops are dropped")
